@@ -23,6 +23,16 @@ fn case(rng: &mut Rng, idx: u64, rec: &mut Rec) {
     // one more head write after completion; an HTTP/1.0 request; a flow produced by a redirect whose
     // original was chunked (the content-length added in Prepare is this body's own framing)
     variant |= [0u16, 0, 256, 512, 4096, 0, 2048, 0][rng.below(8) as usize];
+    if rng.chance(1, 6) && variant & (2048 | 4096) == 0 {
+        variant |= 16384;
+        rec.cov("sender-route/with-a-coding-that-is-not-chunked");
+    }
+    if rng.chance(1, 4) {
+        variant |= 8192;
+        if !use_call && variant & (2048 | 4096) == 0 {
+            rec.cov("sender-route/head-line-by-line");
+        }
+    }
     if variant & 2048 != 0 && !use_call {
         rec.cov("sender-route/redirected-with-own-content-length");
     }
